@@ -15,11 +15,14 @@ import harness.common as hc
 from harness.common import Ck, coq_list
 
 MANIFEST = dict(
-    technique='Rocq proof (heap frame theorem over all mutation histories; copy census with sources => independence; '
-              'per-class export-equality theorem over masked unfoldings; operator-purity and collapse_one frame theorems '
-              'as instances of the frame theorem; kernel-checked separation certificates for exported real object graphs) '
-              '+ five fail-closed ast translators (copy census with source fields, export reads, Keyvalues +/+= append '
-              'sites, math.py operator write/return origins, collapse_one write/enter/copy sites) + oracle search',
+    technique='Rocq proof (heap frame theorem over all mutation histories, also for the masked export observation; copy census '
+              'with sources and constructor ARGUMENT FLOWS => independence; per-class export-equality theorem over masked '
+              'unfoldings; both composed into one whole-property theorem per copy method; operator-purity and collapse_one '
+              'frame theorems as instances of the frame theorem; kernel-checked certificates on exported real object graphs: '
+              'separation, and the census rows themselves) + five fail-closed ast translators with a semantic normalisation '
+              'pre-pass (copy census with source fields and flows through the constructor specialised to the call, export '
+              'reads, Keyvalues +/+= append sites, math.py operator write/return origins, collapse_one write/enter/copy '
+              'sites) + oracle search incl. a boundary-value probe of every scalar field',
     text='Theorems in Props/C09.v (no axioms). Independence: in a heap of mutable/immutable nodes, if no mutable location '
          'is reachable both from object a and from the roots a mutator holds, no sequence of stores/allocations through '
          'those roots changes the unfolding (export) of a, and vice versa; a certificate checker for finite heaps is sound '
@@ -28,21 +31,35 @@ MANIFEST = dict(
          'its original. Completeness: c09_copy_export_equal — if every field the class\'s export reads (generated '
          'export_reads_X) is carried over from its own field (share / fresh container of the same elements / nested copy '
          'that itself exports equally) the copy\'s masked unfolding (IDs, map pointer and unread fields masked) equals the '
-         'original\'s at every depth; refuted for a wrong source field. Keyvalues + / +=: pure, complete and every '
+         'original\'s at every depth; refuted for a wrong source field. Whole property (c09_copy_complete_and_independent, '
+         'c09_all_classes_complete_and_independent): fresh + sources match + export ok + rows hold => the copy exports like '
+         'the original, after every history through the copy the original exports as before the copy was made, after every '
+         'history through the original the copy exports as the original did when copied. Argument flows '
+         '(copy_args_lossless): every carried-over field is fed by its own field only, through value-preserving steps of the '
+         'constructor specialised to the call (p-or-default rejected for scalar fields; c09_imm_flow_complete, '
+         'c09_only_once_argument_lossy_refuted). Row certificate (c09_row_cert_sound): a heap exported from a real '
+         '(original, copy) pair that passes row_cert_ok against the generated census satisfies every premise of the census '
+         'theorem. Keyvalues + / +=: pure, complete and every '
          'appended child a fresh copy iff the receiver and the copied-flag of each append site (one per branch) are right. '
          'Operators: a run none of whose stores is tagged with an operand origin leaves every pre-existing object '
          'unchanged and returns only new objects; in-place operators leave everything separated from the receiver '
          'unchanged. Instancing: a collapse_one run with no template-tagged store or stored value leaves the template '
          'unchanged. Tie (every run): translators regenerate the five Gen tables from vmf.py, keyvalues.py, math.py, '
-         'instancing.py; ~110 named instance obligations (per class: copy_covers_fields, copy_fresh_mutables, '
-         'copy_sources_match, copy_export_equal, export_reads_are_fields; per kv branch; per operator family; '
-         'collapse_*); census vs run-time identities, export reads vs traced attribute reads, operator rows vs real '
-         'calls, kv model vs implementation; exported real object graphs certified in the kernel. Search: identity '
-         'walk, export equality modulo IDs, random in-place mutation histories on either side, instance collapse with '
-         'proxies followed by edits of the target, operand snapshots for every operator.',
+         'instancing.py; ~130 named instance obligations (per census label: copy_covers_fields, copy_fresh_mutables, '
+         'copy_sources_match, copy_args_lossless, copy_export_equal, export_reads_are_fields; per kv branch; per operator '
+         'family; collapse_*; table level incl. all_classes_complete_and_independent); census vs run-time identities, '
+         'argument flows vs the real constructors on boundary values, export reads vs traced attribute reads, operator '
+         'rows vs real calls, kv model vs implementation; exported real object graphs certified in the kernel (separation; '
+         'census rows). Search: identity walk, export equality modulo IDs, random in-place mutation histories on either '
+         'side, boundary value of every scalar field then copy + export, instance collapse with proxies followed by edits '
+         'of the target, operand snapshots for every operator.',
     note='Trusted: Coq kernel + vm_compute; the translators\' classification of Python expressions into census rows (each '
-         'cross-checked dynamically: census_vs_runtime, export_reads_vs_runtime, op_census_vs_runtime, kv_add '
-         'correspondence) and the reading of a census row as its heap meaning (how_sem / how_complete / tstep / cstep: '
+         'cross-checked dynamically: census_vs_runtime, flows_vs_runtime, export_reads_vs_runtime, op_census_vs_runtime, '
+         'kv_add correspondence; the independence reading of the copy census is additionally decided in the kernel on '
+         'sampled real heaps: certificate:census_rows_hold); the normalisation pre-pass of the copy translator (alias '
+         'locals, loop-append = comprehension, single-return helpers inlined, guard clause = if/else ...: each rewrite is '
+         'exact by construction, unknown shapes stay fail-closed); the flow modes as value functions (flow_fun); '
+         'and the reading of a census row as its heap meaning (how_sem / how_complete / tstep / cstep: '
          'stated in the theorems, not derived from Python semantics); harness/c09_util.py (graph walker: __slots__, '
          '__dict__, containers; the VMF back pointer is context and is not followed); CPython object identity. '
          'Completeness is proved relative to "export is a function of the fields it reads" (reads census is static, '
@@ -1173,12 +1190,21 @@ def run(ck: Ck) -> None:
                'frozen twins, scalars and tuples, plus every row of the operator census called with 12 probe arguments; '
                'Keyvalues +/+=/extend with list/root/block/generator operands; instance collapse of generated templates '
                '(half of them with an io_proxy, instance inputs and outputs) twice, then 6 edits of the target map; export '
-               'read traces of generated objects of every kind; distinct by full case tuple')
+               'read traces of generated objects of every kind; boundary cases: every str/int/float/bool/Optional/flag/enum/Vec4 '
+               'data field of every map object reachable from a generated object set to each boundary value of its type '
+               '(falsy values, the values a constructor flag maps to, values no editor writes), then copied and exported; '
+               'row certificates: (census label, generator seed) heaps of original + copy decided in the kernel against the '
+               'generated census; distinct by full case tuple')
     ck.trusted.append('harness/c09_util.py object-graph walker (slots, __dict__, containers); the VMF back pointer is context')
     ck.trusted.append('translate/c09_copy.py, c09_export.py, c09_ops.py, c09_collapse.py: classification of Python expressions into '
                       'census rows (fail-closed; each census is compared with run-time behaviour on every run)')
     ck.assumptions.append('a census row means its heap relation (how_sem / how_complete, tstep / cstep tags): the theorems are '
-                          'stated over these relations; immutable shared values (str, tuple, frozen objects) are atoms')
+                          'stated over these relations; for the independence relation (how_sem, kind_sem) the relation is DECIDED in '
+                          'the kernel on heaps exported from real (original, copy) pairs of every census label '
+                          '(certificate:census_rows_hold); immutable shared values (str, tuple, frozen objects) are atoms')
+    ck.assumptions.append('argument flows: a flow mode means its value function (flow_fun: ident/presence = the value, ordefault = the '
+                          'value when truthy, guard/derived = anything); the specialisation of the constructor to the call is '
+                          'compared with the real constructor by flows_vs_runtime on boundary values')
     ck.assumptions.append('export is a function of the data fields it reads (export_reads census, static over-approximation '
                           'of the traced reads); IDs and the map back pointer are masked in the export comparison')
     ck.assumptions.append('the map back pointer (Entity.map, Solid.map, Side.map, VisGroup.vmf ...) is context: mutations '
